@@ -235,3 +235,18 @@ CHECKS["C04"] = dict(
     outside=["symlinks", "sidecar metadata store", "admin API parameters", "other posix entry points' version-id parameters (retention / legal hold)",
              "percent-encoding beyond one decoding pass is the URL decoder's real behaviour (net/url is executed from its SSA)"],
 )
+
+CHECKS["C08"] = dict(
+    explanation="posix multipart code on the file-system model: (a) one CompleteMultipartUpload from a pre-state with two uploads of the same key whose "
+                "stored parts have symbolic sizes (abstract bulk content around the 5 MiB minimum) and a request listing up to three parts with any "
+                "numbers/ETags - accepted exactly when numbers, order, ETags and minimum sizes are valid; object = concatenation of the listed parts, "
+                "multipart ETag, upload gone, other upload untouched, else key unchanged; (b) a program create/upload/re-upload/list/abort|complete "
+                "with symbolic part bytes; (c) ParseCopySourceRange against the copy-range rules.",
+    harnesses=[
+        dict(name="H08b-complete", entry="backend/posix.VfMultipartComplete", reach=["completed", "refused"], **_FS),
+        dict(name="H08c-program", entry="backend/posix.VfMultipartProgram", reach=["aborted", "completed"], **_FS),
+        dict(name="H08a-copyrange", pkgs=["./backend"], entry="backend.VfCopySourceRange", native=True, reach=["accepted", "refused"]),
+    ],
+    assumptions=["file-system model; MD5/SHA-256 uninterpreted (real function on concrete inputs)", "bulk content of big parts is abstract (size only)"],
+    outside=["UploadPartCopy data path", "ListMultipartUploads markers", "checksum variants", "more than three listed parts / two uploads"],
+)
